@@ -80,9 +80,10 @@ func writeEntry(t *Table, entry kv.Entry) {
 		t.startKey = entry.Key()
 		t.startSeqNum = entry.SeqNum()
 	}
-	// Set ending entry values
+	// Set ending entry values. Entries arrive in key order, not in sequence
+	// order, so the end sequence number is the maximum seen.
 	t.endKey = entry.Key()
-	t.endSeqNum = entry.SeqNum()
+	t.endSeqNum = max(t.endSeqNum, entry.SeqNum())
 
 	// Add to metadata
 	t.searchIndex.IndexOffset(t.size)
